@@ -31,35 +31,35 @@ Step(tags) == l' = l + 1 /\ Flag(l, tags)
 TBegin == /\ e.op = "begin" /\ what' = e.what /\ nextKey' = -KeyInf /\ sawNan' = FALSE /\ Step({})
 
 RunTags ==
-       (IF e.lo # nextKey \/ e.hi < e.lo THEN {"C20:sweep-not-contiguous"} ELSE {})
-  \cup (IF e.kind = "id" /\ (e.lo < Lo \/ e.hi > Hi) THEN {"C20:" \o what \o "-out-of-range-value-kept"} ELSE {})
+       (IF e.lo # nextKey \/ e.hi < e.lo THEN {<<"C20", "sweep-not-contiguous">>} ELSE {})
+  \cup (IF e.kind = "id" /\ (e.lo < Lo \/ e.hi > Hi) THEN {<<"C20", what \o "-out-of-range-value-kept">>} ELSE {})
   \cup (IF e.kind = "const" /\ ~(   (e.hi < Lo /\ e.c = Lo)
                                  \/ (e.lo > Hi /\ e.c = Hi)
                                  \/ (e.lo = e.hi /\ e.c = ClampKey(e.lo, Lo, Hi)))
-          THEN {"C20:" \o what \o "-not-nearest-bound"} ELSE {})
-  \cup (IF e.kind \notin {"id", "const"} THEN {"C20:" \o what \o "-not-a-clamp"} ELSE {})
+          THEN {<<"C20", what \o "-not-nearest-bound">>} ELSE {})
+  \cup (IF e.kind \notin {"id", "const"} THEN {<<"C20", what \o "-not-a-clamp">>} ELSE {})
 
 TRun == /\ e.op = "run" /\ nextKey' = e.hi + 1 /\ UNCHANGED <<what, sawNan>> /\ Step(RunTags)
 
 TNan == /\ e.op = "nan" /\ sawNan' = TRUE /\ UNCHANGED <<what, nextKey>>
         /\ Step(IF \A i \in 1..Len(e.results) : e.results[i] \in {Lo, Hi} THEN {}
-                ELSE {"C20:" \o what \o "-nan-not-a-bound"})
+                ELSE {<<"C20", what \o "-nan-not-a-bound">>})
 
 TEnd == /\ e.op = "end" /\ UNCHANGED <<what, nextKey, sawNan>>
-        /\ Step(   (IF nextKey # KeyInf + 1 THEN {"C20:sweep-incomplete"} ELSE {})
-              \cup (IF ~sawNan THEN {"C20:sweep-incomplete"} ELSE {}))
+        /\ Step(   (IF nextKey # KeyInf + 1 THEN {<<"C20", "sweep-incomplete">>} ELSE {})
+              \cup (IF ~sawNan THEN {<<"C20", "sweep-incomplete">>} ELSE {}))
 
 TNote == /\ e.op = "note" /\ UNCHANGED <<what, nextKey, sawNan>>
-         /\ Step(IF e.v # NoteClamp(e.n) THEN {"C20:note-clamp"} ELSE {})
+         /\ Step(IF e.v # NoteClamp(e.n) THEN {<<"C20", "note-clamp">>} ELSE {})
 
 TChan == /\ e.op = "chan" /\ UNCHANGED <<what, nextKey, sawNan>>
-         /\ Step(IF \A i \in 1..16 : e.resp[i] = (i - 1 = ChanClamp(e.c)) THEN {} ELSE {"C20:channel-clamp"})
+         /\ Step(IF \A i \in 1..16 : e.resp[i] = (i - 1 = ChanClamp(e.c)) THEN {} ELSE {<<"C20", "channel-clamp">>})
 
 TPair == /\ e.op = "envpair" /\ UNCHANGED <<what, nextKey, sawNan>>
-         /\ Step(IF e.neq # 0 THEN {"C20:behaves-differently-from-bound"} ELSE {})
+         /\ Step(IF e.neq # 0 THEN {<<"C20", "behaves-differently-from-bound">>} ELSE {})
 
 TMeta == e.op \in {"meta", "new"} /\ UNCHANGED <<what, nextKey, sawNan>> /\ l' = l + 1
-TPanic == e.op = "panic" /\ UNCHANGED <<what, nextKey, sawNan>> /\ Step({"C17:panic", "C20:panic"})
+TPanic == e.op = "panic" /\ UNCHANGED <<what, nextKey, sawNan>> /\ Step({<<"C17", "panic">>, <<"C20", "panic">>})
 
 TNext == l <= NRec /\ (TMeta \/ TBegin \/ TRun \/ TNan \/ TEnd \/ TNote \/ TChan \/ TPair \/ TPanic)
 TInit == l = 1 /\ what = "time" /\ nextKey = 0 /\ sawNan = FALSE /\ FlagInit
